@@ -31,7 +31,7 @@ open Manticore Manticore.SmbIR Manticore.Gen.SmbCommands
     field. -/
 theorem non_mirror_commands :
     (commands.filter (fun c => !Mirror c)).map (·.name) =
-      ["CreateTemporaryResponse", "FindCloseResponse", "FindResponse", "FindUniqueResponse", "LockAndReadResponse",
+      ["FindCloseResponse", "FindResponse", "FindUniqueResponse", "LockAndReadResponse",
        "LockingAndxRequest", "NegotiateRequest", "NegotiateResponse", "OpenAndxRequest", "OpenAndxResponse",
        "QueryInformation2Response", "QueryInformationResponse", "ReadRawRequest", "ReadResponse", "RenameRequest",
        "SessionSetupAndxRequest", "SessionSetupAndxResponse", "TransactionRequest", "TreeConnectRequest",
@@ -50,7 +50,7 @@ theorem andx_consumed :
     changes this list. -/
 theorem known_roundtrip_findings :
     commands.filterMap (fun c => (knownRtKind c).map (fun k => (k, c.name))) =
-      [(.fieldNotUnmarshalled, "CreateTemporaryResponse"), (.fixedEntrySize, "FindResponse"), (.fixedEntrySize, "FindUniqueResponse"),
+      [(.fixedEntrySize, "FindResponse"), (.fixedEntrySize, "FindUniqueResponse"),
        (.fieldNotMarshalled, "LockAndReadResponse"),
        (.fieldNotMarshalled, "NegotiateRequest"), (.fieldNotMarshalled, "NegotiateResponse"),
        (.fieldNotMarshalled, "OpenAndxResponse"),
@@ -228,7 +228,7 @@ theorem mirror_loops_extends : commands.all (fun c => !Mirror c || MirrorLoops c
     the parameter block. -/
 theorem non_mirror_loops_commands :
     (commands.filter (fun c => !MirrorLoops c)).map (·.name) =
-      ["CreateTemporaryResponse", "FindCloseResponse", "FindResponse", "FindUniqueResponse", "LockAndReadResponse",
+      ["FindCloseResponse", "FindResponse", "FindUniqueResponse", "LockAndReadResponse",
        "NegotiateRequest", "NegotiateResponse", "OpenAndxResponse",
        "QueryInformation2Response", "QueryInformationResponse", "ReadRawRequest", "ReadResponse", "RenameRequest",
        "TreeConnectRequest", "WriteAndCloseRequest", "WriteAndUnlockRequest", "WriteRequest"] := by decide +kernel
